@@ -289,6 +289,12 @@ func TestVerifC01WireIsRaw(t *testing.T) {
 			cfg.ClientSessionCache = NewLRUClientSessionCache(4)
 			cfg.PreferSkipResumptionOnNilExtension = true // custom specs without session extensions: documented switch
 		}
+		// a real ECH configuration: the hello is then marshalled through the inner/outer construction, at every build
+		withECH := rapid.IntRange(0, 4).Draw(rt, "ech_config") == 0
+		var echKey EncryptedClientHelloKey
+		if withECH {
+			cfg.EncryptedClientHelloConfigList, echKey = vfMakeECHConfig(rapid.Uint64Range(1, 250).Draw(rt, "ech_id"), "public.c01.test")
+		}
 		cp, sp := vfPipe()
 		uc := UClient(cp, cfg, src.ID)
 		var err error
@@ -348,7 +354,13 @@ func TestVerifC01WireIsRaw(t *testing.T) {
 		}
 		// ---- server ----
 		srvKind := []string{"plain13", "plain13", "plain12", "hrr", "hrr", "reject"}[rapid.IntRange(0, 5).Draw(rt, "server")]
-		scfg := vfServerConfig("ecdsa", sni0)
+		scfg := vfServerConfig("ecdsa", sni0, "public.c01.test")
+		if withECH {
+			st.Class("client-with-ech-config")
+			if rapid.Bool().Draw(rt, "server_has_ech_key") {
+				scfg.EncryptedClientHelloKeys = []EncryptedClientHelloKey{echKey}
+			}
+		}
 		switch srvKind {
 		case "plain12":
 			scfg.MaxVersion = VersionTLS12
@@ -439,7 +451,7 @@ func TestVerifC01WireIsRaw(t *testing.T) {
 			if got := vf01TypesNoPadding(h); fmt.Sprint(got) != fmt.Sprint(wantTypes) {
 				st.Violation(rt, "%s: extension list edits not visible: wire %v, expected %v", what, got, wantTypes)
 			}
-			if m.sni != nil {
+			if m.sni != nil && !(withECH && h.Ext(0xfe0d) != nil) {
 				if name, present := h.SNI(); present && m.sniNone {
 					st.Violation(rt, "%s: SetSNI with a name that is not sent as SNI (IP literal or empty): wire still has server_name %q", what, name)
 				}
@@ -450,7 +462,7 @@ func TestVerifC01WireIsRaw(t *testing.T) {
 			if h.Ext(16) != nil && m.alpn != nil && strings.Join(h.ALPN(), ",") != strings.Join(m.alpn, ",") {
 				st.Violation(rt, "%s: ALPN edit not visible: wire %q, set %q", what, h.ALPN(), m.alpn)
 			}
-			if len(m.kinds) == 0 && !bytes.Equal(hellos[0], raw0) {
+			if len(m.kinds) == 0 && !withECH && !bytes.Equal(hellos[0], raw0) { // (with ECH every build seals afresh)
 				// no edit: the rebuilt hello is the one the caller inspected
 				st.Violation(rt, "%s: without edits the hello sent differs from the one built and inspected", what)
 			}
